@@ -34,6 +34,9 @@ CLAIMED = {
   "C10": ("symbolic execution of the real spline set-up and evaluation code with numpy.linalg.solve replaced by its contract (unknowns c, A.c == B); subterms polynomially identical to a row of A.c are rewritten to the row's right-hand side, z3 decides the remaining identities; equivalence of the three constructions by memoised solve (equal systems -> equal unknowns)",
           "for all detach < (r_min <) attach, all end potentials (uninterpreted functions with arbitrary value/slope/curvature at the joins) and all r: C2 joins, zero slope and continuity at r_min, region dispatch, advertised shape; as.buck4 == spline() modifier == Python classes for all parameters",
           NOTE + "; LAPACK's accuracy and singular systems are outside the claim; trusted calculus: symx/jets.py", "3 C10"),
+  "C17": ("fault injection with a symbolic failing ordinal: every function evaluation compares its index with one symbolic integer k, the SYMX explorer splits on the z3-feasible classes of k (N+1, N discovered) through the real write()/action_tabulate code with a recording sink / real file; a z3 completeness VC shows the explored classes cover every integer k; each partial-output path is replayed with the model's concrete k",
+          "for every tabulation target, every position k of the failing evaluation (pair, density, embedding, dipole, quadrupole functions) on the stated grids: nothing written and the exception propagates; no failure: whole table; large grids (size-dependent buffering) with k in a stated candidate set",
+          "loop counts concrete per run (small grids exhaustive in k; large grids over a candidate set of k); failures modelled as exceptions leaving the callable; potable end-to-end runs on real files are a concrete replay layer", "3 C17"),
   "C19": (SYMX % "GULP, ADP, funcfl and Excel writers",
           "same slot-level term comparison for the secondary targets (funcfl charge via a sqrt atom with Z>=0, Z^2*27.2*0.529 = r*phi)",
           NOTE + "; workbook cells read from the openpyxl object", "3 C19"),
